@@ -422,6 +422,16 @@ namespace sim
         unsigned char pad[Pad ? Pad : 1];
 
         static uint32_t here(const void* p) { return static_cast<uint32_t>(reinterpret_cast<uintptr_t>(p) >> 3) ^ 0x5bd1e995u; }
+        // called by every constructor: storage handed out for this type has to respect its alignment
+        static uint32_t born(const void* p)
+        {
+            if (reinterpret_cast<uintptr_t>(p) % Align != 0)
+            {
+                Suspend s;
+                defer("lifetime", registry().sigprefix + "/lifetime/misaligned", "an object with alignment " + std::to_string(Align) + " was constructed at an address that is not a multiple of it");
+            }
+            return here(p);
+        }
         bool in_place() const { return where == here(this); }
         void check_place(const char* what) const
         {
@@ -432,22 +442,22 @@ namespace sim
             }
         }
 
-        Tracked() : id(0), where(here(this)), moved(false)
+        Tracked() : id(0), where(born(this)), moved(false)
         {
             fault_point(FK_THROW);
             registry().on_construct(this, Tag, id, moved);
         }
-        explicit Tracked(uint64_t v) : id(v), where(here(this)), moved(false)
+        explicit Tracked(uint64_t v) : id(v), where(born(this)), moved(false)
         {
             fault_point(FK_THROW);
             registry().on_construct(this, Tag, id, moved);
         }
         struct no_fault {};
-        explicit Tracked(no_fault) noexcept : id(0), where(here(this)), moved(false)     // a constructor that cannot fail
+        explicit Tracked(no_fault) noexcept : id(0), where(born(this)), moved(false)     // a constructor that cannot fail
         {
             registry().on_construct(this, Tag, id, moved);
         }
-        Tracked(const Tracked& o) : id(0), where(here(this)), moved(false)
+        Tracked(const Tracked& o) : id(0), where(born(this)), moved(false)
         {
             registry().use(&o, Tag, "copy construction from");
             o.check_place("copy construction from");
@@ -456,7 +466,7 @@ namespace sim
             registry().on_construct(this, Tag, id, moved);
             ++registry().copies;
         }
-        Tracked(Tracked&& o) noexcept(NothrowMove) : id(0), where(here(this)), moved(false)
+        Tracked(Tracked&& o) noexcept(NothrowMove) : id(0), where(born(this)), moved(false)
         {
             registry().use(&o, Tag, "move construction from");
             o.check_place("move construction from");
